@@ -11,6 +11,8 @@ import RTV.Drv.Cal
 import RTV.Drv.DtRes
 import RTV.Drv.Span
 import RTV.Drv.UnitExtract
+import RTV.Drv.Periods
+import RTV.Drv.Holiday
 /-! Model driver: one operation per input line (tab-separated), one answer line per operation.
 Run compiled (`.lake/build/bin/rtvdriver`) or with `lake env lean --run Driver.lean`. -/
 open RTV.Drv
@@ -27,6 +29,8 @@ def dispatch (line : String) : String :=
       <|> dispatchChoice op args
       <|> dispatchTimex op args
       <|> dispatchCal op args
+      <|> dispatchPeriods op args
+      <|> dispatchHoliday op args
       <|> dispatchDtRes op args
       <|> dispatchNum op args
       <|> dispatchSpan op args
